@@ -2794,6 +2794,11 @@ func (p *Parser) evaluateInput(ctx context) (Expression, error) {
 
 		if len(expressions) > 0 {
 			expr = expressions[0]
+
+			// The prompt must be a string.
+			if !expr.ValueType().IsString() {
+				return nil, p.expectedError("prompt string", keywordToken)
+			}
 		}
 		return Input{
 			prompt: expr,
